@@ -285,6 +285,12 @@ func runC19(c *Check, w *World) {
 						has = true
 					}
 				}
+				// a service-layer helper that itself returns an error hands the failure to its caller, who answers
+				if res := h.Signature.Results(); !has && res.Len() > 0 && isErrorType(res.At(res.Len()-1).Type()) {
+					if _, isRet := eb.Instrs[len(eb.Instrs)-1].(*ssa.Return); isRet {
+						has = true
+					}
+				}
 				c.Decide(has, "R19.4", hfn, "error-branch:"+clip(shortVal(v), 60), "the error branch answers through writeError", "an error is detected but its branch does not answer with an error status", w.InstrPos(iff))
 			}
 		}
